@@ -531,6 +531,7 @@ def run(ctx):
         orc += o2
     if ctx.tier == "thorough":
         # the same sequences under AddressSanitizer / UBSan ("no operation touches memory outside the container")
+        os.environ.setdefault("ASAN_OPTIONS", "detect_leaks=0")     # the build runs its own (leaky) message-catalogue tool
         ok_a, alog = core.build_lib("asan")
         impl_a, ok_ha, hlog_a = core.build_harness("cont", "asan") if ok_a else (None, False, alog)
         if not ok_ha:
